@@ -273,9 +273,58 @@ let rec collect_nodes (t : node) (acc : ((int * int) * string) list) : ((int * i
 (* the expected raw store comes from the proved model (Store.expected_store, StoreFacts) *)
 (* what the implementation printed for the operation being stepped (set by the replay loop): only
    environment choices are read from it (the flush positions of a recorded deletion) *)
-(* "ac(ok;c=[k=v,..];d=[k=v,..])": the dump of the node cache and of the database records its
-   keys resolve to; judged by NodeCache.coherentb once extracted (placeholder: accepted) *)
-let cache_dump_coherent (_ : string) : bool = true
+(* "ac(ok;c=[k=v,..];d=[k=v,..])": the dump of the node cache (most recently used first) and of
+   the database records its keys resolve to, judged by the extracted, proved checker
+   NodeCache.coherentb (NodeCacheFacts.coherentb_spec: it IS the invariant of cache_transparent).
+   Values are the stored bytes; a record is a node unless it is empty or a root reference. *)
+let section_between (s : string) (pre : string) : string =
+  (* the text between [pre] and the next ']' *)
+  let i = Str.search_forward (Str.regexp_string pre) s 0 + String.length pre in
+  String.sub s i (String.index_from s i ']' - i)
+let cache_dump_coherent (impl : string) : bool =
+  try
+    let parse body =
+      if body = "" then []
+      else List.map (fun e ->
+          match String.split_on_char '=' e with
+          | [ k; v ] ->
+              let kb = bytes_of_tok k in
+              let num l = List.fold_left (fun a x -> a * 256 + int_of_n x) 0 l in
+              let rec take n l = if n = 0 then [] else (match l with x :: r -> x :: take (n - 1) r | [] -> []) in
+              let rec drop n l = if n = 0 then l else (match l with _ :: r -> drop (n - 1) r | [] -> []) in
+              ((z_of_int (num (take 8 kb)), z_of_int (num (drop 8 kb))), bytes_of_tok v)
+          | _ -> failwith "bad cache dump entry") (String.split_on_char ',' body) in
+    let cache = parse (section_between impl "c=[") in
+    let disk = parse (section_between impl "d=[") in
+    let is_node (b : bytes) =
+      (match b with
+       | [] -> false
+       | x :: _ -> not (int_of_n x = 115 && (List.length b = 13 || List.length b = 9))) in
+    coherentb (fun a b -> a = b) is_node disk cache
+  with _ -> false
+
+(* "<th>:<batch>|<batch>.." with <batch> = "s<klen>+<vlen>,d<klen>,..": the physical batches of a
+   commit on a plain MemDB; the extracted Flusher.fl_batches (FlusherFacts: nothing lost, greedy and
+   maximal cuts) must cut the same stream of operation sizes at the same places (empty batches,
+   which the recorder does not see, left out). Returns the cut list the model computes. *)
+let flusher_cuts (body : string) : string =
+  match String.index_opt body ':' with
+  | None -> body
+  | Some i ->
+      let th = int_of_string (String.sub body 0 i) in
+      let rest = String.sub body (i + 1) (String.length body - i - 1) in
+      let zeros n = List.init n (fun _ -> N0) in
+      let batches = if rest = "" then [] else List.map (fun b -> String.split_on_char ',' b) (String.split_on_char '|' rest) in
+      let op_of (o : string) : bop0 =
+        let t = String.sub o 1 (String.length o - 1) in
+        if o.[0] = 'd' then BDel0 (zeros (int_of_string t))
+        else (match String.split_on_char '+' t with
+            | [ a; b ] -> BSet0 (zeros (int_of_string a), zeros (int_of_string b))
+            | _ -> failwith "bad batch op") in
+      let ops = List.map op_of (List.concat batches) in
+      let model = List.filter (fun b -> b <> []) (fl_batches (z_of_int th) ops) in
+      let show_op = function BSet0 (k, v) -> Printf.sprintf "s%d+%d" (List.length k) (List.length v) | BDel0 k -> Printf.sprintf "d%d" (List.length k) in
+      Printf.sprintf "%d:%s" th (String.concat "|" (List.map (fun b -> String.concat "," (List.map show_op b)) model))
 
 let current_expected : string option ref = ref None
 
@@ -769,7 +818,12 @@ let make_m1 (params : string list) : machine =
             let nodes = List.filter_map (function WSet (KNode (v, n), _) -> Some (Printf.sprintf "%d.%d" (int_of_z v) (int_of_z n)) | _ -> None) ops in
             let s', x = m_step !st OSave in
             st := s';
-            "(ws[" ^ String.concat "," nodes ^ "]," ^ show_out x ^ ")"
+            let impl = (match !current_expected with Some e -> e | None -> "") in
+            let wb = (try
+                        let body = section_between impl ";wb[" in
+                        if body = "-" then "-" else flusher_cuts body
+                      with _ -> "-") in
+            "(ws[" ^ String.concat "," nodes ^ "];wb[" ^ wb ^ "]," ^ show_out x ^ ")"
         | [ "r"; t; "istop"; api; s0; e0; asc; n ] ->
             (* a stop request at the n-th element delivers exactly the first n elements of the
                specified iteration and the call reports that it was stopped; when fewer exist, all of
